@@ -166,7 +166,7 @@ def mon_store_immutable(steps, meta):
     for st in steps:
         if st.dump is None:
             continue
-        cur = {p: e for p, e in st.dump.items() if under("/k/store", p) or under("/k/projects", p)}
+        cur = {p: e for p, e in st.dump.items() if (under("/k/store", p) or under("/k/projects", p)) and e[0] == "file"}
         if prev is not None:
             for p, e in prev.items():
                 c = cur.get(p)
@@ -355,7 +355,7 @@ def _run_crash_impl(args):
         shutil.rmtree(sb, ignore_errors=True)
 
 
-def run_crash_cases(rep, exe_impl, exe_model, cases, monitors, projection=project_default, what="crash"):
+def run_crash_cases(rep, exe_impl, exe_model, cases, monitors, projection=project_default, what="crash", known=None):
     """like run_cases, but the implementation really dies at the crash point"""
     jobs = [(exe_impl, exe_model, s, 120) for _, s, _ in cases]
     both = vlib.parallel_map(_run_crash_impl, jobs)
@@ -364,6 +364,7 @@ def run_crash_cases(rep, exe_impl, exe_model, cases, monitors, projection=projec
     found = False
     diverged = []
     validated = 0
+    khits = {}
     for (cid, script, meta), (il, _) in zip(cases, both):
         steps = align(script.split("\n"), il)
         tag_env(steps)
@@ -377,16 +378,22 @@ def run_crash_cases(rep, exe_impl, exe_model, cases, monitors, projection=projec
             if r:
                 bad = "%s: %s" % (mname, r)
         if bad:
-            rep.violation(what, {"case": cid, "script": script.split("\n"), "implementation": wc.comparable(il),
-                                 "model": wc.comparable(model.get(cid)) if exe_model else None, "what": bad, "meta": meta,
-                                 "runner": "crash"}, found_input=True)
-            return True, validated
+            kid = known(meta, bad) if known else None
+            if kid:
+                khits.setdefault(kid, []).append(cid)
+            else:
+                rep.violation(what, {"case": cid, "script": script.split("\n"), "implementation": wc.comparable(il),
+                                     "model": wc.comparable(model.get(cid)) if exe_model else None, "what": bad, "meta": meta,
+                                     "runner": "crash"}, found_input=True)
+                return True, validated
         if exe_model:
             a, b = projection(il), projection(model.get(cid))
             if a != b:
                 diverged.append((cid, script, a, b))
                 continue
         validated += 1
+    for kid, cids in khits.items():
+        rep.known("%s reproduced on %d crash case(s), e.g. %s" % (kid, len(cids), cids[0]))
     if diverged:
         cid, script, a, b = diverged[0]
         first = next((i for i, (x, y) in enumerate(zip(a, b)) if x != y), min(len(a), len(b)))
@@ -408,7 +415,7 @@ def count_calls(exe_impl, script_lines):
     res = []
     for i, st in enumerate(steps):
         if st.op in HANDLER_OPS and st.result not in (None, "nohandler"):
-            res.append((i, [l.split(" ")[1] for l in st.log]))
+            res.append((i, [l.split(" ", 1)[1] for l in st.log]))
     return steps, res
 
 
@@ -441,17 +448,34 @@ def enumerate_cases(exe_impl, tier, kind, seed=1, only=None):
         if not ops:
             continue
         names = ops[0][1]
-        for k, cname in enumerate(names):
+        # phases of a timeout pass over a file head: copy (from the exclusive create to the second close),
+        # position (the update of the remembered position), pop (from the readlinkat of pop_head on)
+        phases = []
+        ph, closes = "head", 0
+        for cline in names:
+            if "W|CREAT|EXCL" in cline:
+                ph, closes = "copy", 0
+            elif ph == "copy" and cline.startswith("close"):
+                closes += 1
+                phases.append(ph)
+                if closes == 2:
+                    ph = "position"
+                continue
+            elif ph == "position" and cline.startswith("readlinkat"):
+                ph = "pop"
+            phases.append(ph)
+        for k, cline in enumerate(names):
+            cname = cline.split(" ")[0]
             if kind == "crash":
                 script = wc.scenario_script(sc, "oracle crash %d" % k, crash=True)
-                cases.append(("%s@%d" % (sc["name"], k), script, {"scenario": sc["name"], "k": k, "call": cname}))
+                cases.append(("%s@%d" % (sc["name"], k), script, {"scenario": sc["name"], "k": k, "call": cname, "callline": cline, "phase": phases[k]}))
             else:
                 errs = PLAUSIBLE.get(cname, ["EIO"])
                 if tier == "quick" and len(errs) > 2:
                     errs = rng.sample(errs, 2)
                 for e in errs:
                     script = wc.scenario_script(sc, "oracle fail %d %s" % (k, e))
-                    cases.append(("%s@%d:%s" % (sc["name"], k, e), script, {"scenario": sc["name"], "k": k, "call": cname, "errno": e}))
+                    cases.append(("%s@%d:%s" % (sc["name"], k, e), script, {"scenario": sc["name"], "k": k, "call": cname, "errno": e, "callline": cline, "phase": phases[k]}))
         if kind == "crash":
             # one past the end: the operation completes
             script = wc.scenario_script(sc, "oracle crash %d" % len(names), crash=True)
@@ -500,6 +524,7 @@ def queue_of(dump):
             if p.startswith(q + "/") and e[0] == "link":
                 m, path = decode_target(unhexs(e[1]))
                 out.append((q, int(p[len(q) + 1:]), path, m, int(e[2])))
+    out.sort(key=lambda x: (x[0], x[1]))
     return out
 
 
@@ -755,14 +780,22 @@ def mon_recovery(steps, meta):
     if len(dumps) < 2:
         return None
     pre, last = dumps[0], dumps[-1]
+    cl = meta.get("callline", "")
+    if meta.get("errno") in ("ENOENT", "EACCES") and cl.startswith("open $/w/") and cl.split(" ")[2] == "R":
+        # the failing call is the open of the source: "deleted" / "permission denied" are expected
+        # conditions, handled by dropping the item
+        return None
     # every start after the disturbance must succeed
-    disturbed = False
+    disturbed = 0
     for st in steps:
         if st.op == "oracle":
-            disturbed = True
-        if disturbed and st.op == "start" and st.result not in ("ok", None):
-            if not meta.get("start_is_target"):
-                return "restart after the disturbance failed: %s" % st.trace
+            disturbed = 1
+            continue
+        if disturbed == 1 and st.op in HANDLER_OPS:
+            disturbed = 2      # this is the disturbed operation itself
+            continue
+        if disturbed == 2 and st.op == "start" and st.result not in ("ok", None, "crashed"):
+            return "restart after the disturbance failed: %s" % st.trace
     for (_, num, path, m, mt) in queue_of(pre):
         if m & 1:
             continue
@@ -818,7 +851,7 @@ def mon_no_partial(steps, meta):
 def mon_fault_reported(steps, meta):
     """C10: a disturbed operation either completes or reports an error; it never crashes the daemon"""
     for st in steps:
-        if st.op in HANDLER_OPS and st.result is None:
+        if st.op in HANDLER_OPS and st.op != "stop" and st.result is None:
             return "operation '%s' produced no result (the daemon crashed?)" % st.line
         if st.op in HANDLER_OPS and st.result == "error" and (st.trace in (None, "trace ok")):
             return "operation '%s' failed without reporting an error" % st.line
@@ -847,3 +880,140 @@ MONITORS.update({
     "bursts": mon_bursts, "projects": mon_projects, "recovery": mon_recovery, "no_partial": mon_no_partial,
     "fault_reported": mon_fault_reported, "resources": mon_resources,
 })
+
+
+# ------------------------------------------------------------------ standard main for world properties
+
+def standard_main(rep, cases=None, monitors=(), crash_monitors=None, fault_monitors=None, crash=False, fault=False,
+                  rule="", only=None, known=None, nontrivial=None):
+    """cases: [(cid, script, meta)] random / structured histories.
+    crash / fault: also enumerate every call index of the scenario families.
+    known: f(case meta, message) -> finding id or None (open known findings)."""
+    exe_impl, exe_model = vlib.prepare(rep)
+    found = False
+    total = 0
+    validated = 0
+    dist = {}
+    samples = []
+    if exe_impl:
+        if cases:
+            f, v = run_cases(rep, exe_impl, exe_model, cases, list(monitors))
+            found = found or f
+            validated += v
+            total += len(cases)
+            dist["histories"] = len(cases)
+            samples.append(cases[0][1].split("\n")[-14:])
+        if crash and not found:
+            cc = enumerate_cases(exe_impl, rep.tier, "crash", rep.seed, only=only)
+            f, v = run_crash_cases(rep, exe_impl, exe_model, cc, list(crash_monitors or monitors), known=known)
+            found = found or f
+            validated += v
+            total += len(cc)
+            dist["crash_points"] = len(cc)
+            samples.append({"crash case": cc[len(cc) // 2][0], "tail": cc[len(cc) // 2][1].split("\n")[-9:]})
+        if fault and not found:
+            fc = enumerate_cases(exe_impl, rep.tier, "fault", rep.seed, only=only)
+            keep, kf = [], []
+            f, v = run_cases_known(rep, exe_impl, exe_model, fc, list(fault_monitors or monitors), known)
+            found = found or f
+            validated += v
+            total += len(fc)
+            dist["single_faults"] = len(fc)
+            samples.append({"fault case": fc[len(fc) // 2][0], "tail": fc[len(fc) // 2][1].split("\n")[-10:]})
+    rep.cov["evaluations"] = total
+    rep.cov["distinct_nontrivial"] = total if nontrivial is None else nontrivial
+    rep.cov["traces_validated_against_impl"] = validated
+    rep.cov["input_distribution"] = dist
+    rep.cov["rule"] = rule
+    rep.cov["samples"] = samples
+    rep.cov["monitors"] = list(monitors)
+    vlib.conclude_proofs(rep, found)
+
+
+def run_cases_known(rep, exe_impl, exe_model, cases, monitors, known):
+    """run_cases, but a monitor failure that matches an open known finding is
+    reported as KNOWN-FINDING and the remaining cases are still judged"""
+    if known is None:
+        return run_cases(rep, exe_impl, exe_model, cases, monitors)
+    impl, model, problems = vlib.correspond(exe_impl, exe_model, "world", [(c, s) for c, s, _ in cases], sandbox=True)
+    found = False
+    validated = 0
+    diverged = []
+    hits = {}
+    for cid, script, meta in cases:
+        il = impl.get(cid)
+        if il is None:
+            rep.violation("driver", {"case": cid, "script": script.split("\n"), "what": "no output from the implementation"})
+            return True, validated
+        steps = align(script.split("\n"), il)
+        tag_env(steps)
+        bad = None
+        for mname in monitors:
+            r = MONITORS[mname](steps, meta)
+            if r:
+                bad = "%s: %s" % (mname, r)
+                break
+        if bad:
+            kid = known(meta, bad)
+            if kid:
+                hits.setdefault(kid, []).append(cid)
+            else:
+                rep.violation("world", {"case": cid, "script": script.split("\n"), "implementation": wc.comparable(il),
+                                        "what": bad, "meta": meta})
+                return True, validated
+        if exe_model:
+            a, b = project_default(il), project_default(model.get(cid))
+            if a != b:
+                diverged.append((cid, script, a, b))
+                continue
+        validated += 1
+    for kid, cids in hits.items():
+        rep.known("%s reproduced on %d case(s), e.g. %s" % (kid, len(cids), cids[0]))
+    if diverged:
+        cid, script, a, b = diverged[0]
+        first = next((i for i, (x, y) in enumerate(zip(a, b)) if x != y), min(len(a), len(b)))
+        rep.violation("correspondence", {"case": cid, "script": script.split("\n"), "implementation": a, "model": b,
+                                         "first_difference": {"index": first, "implementation": a[first:first + 3], "model": b[first:first + 3]},
+                                         "what": "implementation and model differ on %d case(s); the monitors found no failing input" % len(diverged),
+                                         "broken": "correspondence (world driver)"}, found_input=False)
+        found = True
+    for p in problems:
+        rep.notes.append(p)
+        if not found:
+            rep.violation("driver", {"what": p}, found_input=False)
+            found = True
+    return found, validated
+
+
+def mon_position_kept(steps, meta):
+    """C08/C10: a copy of a history path that fails or is abandoned leaves the remembered position where it was"""
+    dumps = [st.dump for st in steps if st.dump is not None]
+    if len(dumps) < 2:
+        return None
+    pre, after = dumps[0], dumps[1]
+    for rel in HISTORY_RELS:
+        newv = [p for p in after if p.startswith("/k/store/%s/" % rel) and after[p][0] == "file" and p not in pre]
+        a, b = pre.get("/k/var/offsets/" + rel), after.get("/k/var/offsets/" + rel)
+        if not newv and (a or ())[2:] != (b or ())[2:] and (a is None or a[0] == "file"):
+            ca, cb = content(a), content(b)
+            return "no version of %s was stored but its remembered position changed from %r to %r" % (rel, ca, cb)
+    return None
+
+
+MONITORS["position_kept"] = mon_position_kept
+
+
+def mon_no_error(steps, meta):
+    """without injected failures and with valid configurations no operation may stop the daemon with an error"""
+    if any(st.op == "oracle" and st.tok[1] in ("fail", "crash") for st in steps):
+        return None
+    if any(st.line.startswith("cfgbind invalid") for st in steps):
+        return None
+    for st in steps:
+        if st.op in HANDLER_OPS and st.result == "error":
+            msgs = [unhexs(t.split(":", 1)[1]) for t in (st.trace or "").split()[1:]]
+            return "operation '%s' stopped the daemon: %s" % (st.line.split()[0], " <- ".join(msgs)[:200])
+    return None
+
+
+MONITORS["no_error"] = mon_no_error
